@@ -1195,7 +1195,7 @@ class thread_aclose:
         }
 
 
-@contract(RUN + "asyncio_runner:AsyncioRunner.aclose", props=["C02"])
+@contract(RUN + "asyncio_runner:AsyncioRunner.aclose", props=["C02", "C01"])
 class asyncio_aclose:
     """closing the asyncio runner: the manage task is woken, then EVERY task still tracked is cancelled until none is left -
     a task leaves the set only once it is done; on normal return no tracked task remains and the failure future is resolved"""
